@@ -504,6 +504,17 @@ func vfExerciseExpected(rep *verifkit.Report, tc *conformancev1.TestCase, desc s
 			a.Payloads[i].Data[pos] ^= 0x01
 		}
 		c.mustFail("payload-byte-flipped", a, fmt.Sprintf("response #%d", i+1))
+		if len(p.Data) > 1 {
+			for _, pos := range []int{len(p.Data) - 1, len(p.Data) / 2, (len(p.Data) * 3) / 4} {
+				a = vfCloneRes(E)
+				a.Payloads[i].Data = append([]byte{}, p.Data...)
+				a.Payloads[i].Data[pos] ^= 0x80
+				c.mustFail("payload-byte-flipped-far", a, fmt.Sprintf("response #%d", i+1))
+			}
+			a = vfCloneRes(E)
+			a.Payloads[i].Data = append([]byte{}, p.Data[:len(p.Data)-1]...)
+			c.mustFail("payload-last-byte-dropped", a, fmt.Sprintf("response #%d", i+1))
+		}
 		if big {
 			continue
 		}
@@ -711,7 +722,7 @@ func vfSynthExpected(r *verifkit.Rand, i int) *conformancev1.TestCase {
 		nPay = r.Intn(2)
 	}
 	for k := 0; k < nPay; k++ {
-		p := &conformancev1.ConformancePayload{Data: r.Bytes(r.Intn(10))}
+		p := &conformancev1.ConformancePayload{Data: r.Bytes(verifkit.Pick(r, []int{0, 1, 5, 9, 9, 600, 5000}))}
 		if k == 0 || st == 5 || r.Bool() {
 			p.RequestInfo = reqInfo(k == 0)
 		}
